@@ -207,7 +207,7 @@ var ruleParseResult = &Rule{
 				}
 				nerr, nokk := 0, 0
 				for _, b := range fn.Blocks {
-					isNil, notNil := nilFact(factsAt(b), errV)
+					_, notNil := nilFact(factsAt(b), errV)
 					last := b.Instrs[len(b.Instrs)-1]
 					switch t := last.(type) {
 					case *ssa.Panic:
@@ -221,14 +221,14 @@ var ruleParseResult = &Rule{
 						} else {
 							out.viol("path."+ws.fn+" panics", p.pos(t.Pos()), fnName(fn), "explicit panic in a non-Must function")
 						}
-					case *ssa.Return:
-						if b == fn.Recover {
-							continue
-						}
-						res := make([]ssa.Value, len(t.Results))
-						for i, v := range t.Results {
-							res[i] = unspill(b, t, v)
-						}
+					}
+				}
+				// returns, one per way of reaching them (single-exit functions
+				// that assign the result before a common return are expanded)
+				for _, er := range expandedReturns(fn) {
+					{
+						t, b, res := er.Instr, er.Block, er.Results
+						isNil, notNil := nilFact(er.Facts, errV)
 						switch {
 						case notNil:
 							nerr++
@@ -279,7 +279,7 @@ var ruleParseResult = &Rule{
 			// every other non-nil error returned must wrap the sentinel or
 			// come from a sibling
 			if ws.kind == "errorOnly" {
-				for _, r := range returnsOf(fn) {
+				for _, r := range expandedReturns(fn) {
 					e := p.shapeOf(r.Results[len(r.Results)-1])
 					switch {
 					case e.Kind == "nil":
